@@ -149,5 +149,52 @@ CHECKS["C11"] = {
             "naming rule (C10's subject). Per-item attributes (row/column, tab titles) are C12's/C14's subject, not compared here.",
 }
 
+CHECKS["C04"] = {
+    "text": "Proofs (closed under the global context) over model/Uigen.v, the routing of every binding of an object to the pass that owns it (make_serializable_map / "
+            "make_value_map with the pseudo-property lists regenerated from object.rs and layout.rs by the translator, the special consumers, SerializableValue::build, "
+            "is_evaluated_constant, UiSupportCode::build, CxxEvalGadgetMapFunction, CxxUpdateBinding, the left-over attached bindings): the form, the header and the "
+            "diagnostics consist EXACTLY of the per-binding fates (C04_form_is_the_placed_bindings, C04_header_is_the_dynamic_bindings, "
+            "C04_diagnostics_are_the_binding_diagnostics); in an accepted document no binding has a diagnostic and every scalar binding is in exactly one of "
+            "{form, header} (C04_scalar_exactly_one); constant members of a grouped value are in the form and, when a sibling is dynamic, every member is set in the "
+            "header (C04_gadget_members_placed); whatever the object kind, property and outcome, a binding placed in neither output is diagnosed "
+            "(C04_never_in_neither). Tie: per object, the properties in the real .ui, the bindings/members/callbacks of the real header and the diagnostics attributed "
+            "by byte range vs the model, on generated documents with labelled bindings. Oracle without the model: exactly-one on accepted documents; planted "
+            "unknown/duplicated/unsupported bindings are diagnosed inside their text; the real command exits 1 and creates/modifies no output on error.",
+    "technique": "Coq proof over a model of the binding routing (name lists regenerated from source) + per-binding differential check against real .ui/header/diagnostics + exactly-one oracle + CLI run",
+    "design_ref": "5 C04",
+    "note": "Trusted: the generator's labels of bindings (a wrong label is a K disagreement), diagnostic attribution by byte range, message classes. The expression layer "
+            "is abstracted to its outcome. 'Errors write nothing' is tested on the real command (src/main.rs), not proved. Grouped values nested deeper than one level "
+            "(palette) are outside the model.",
+}
+
+CHECKS["C14"] = {
+    "text": "Proofs (closed under the global context) over model/Uigen.v with the mode as a parameter: the form and the consumed attached bindings of every object are "
+            "the same under generate, reject and omit (C14_form_mode_free); a document is accepted in reject mode exactly when it is accepted in generate mode with a "
+            "header holding no binding and no callback (C14_reject_iff: uses that the C++ pass never drops a dynamic binding silently); every error of the omit mode "
+            "is an error of the other two (C14_omit_subset); a header in generate mode only and no binding/callback code otherwise (C14_header_only_in_generate, "
+            "C14_no_code_outside_generate). Tie: the real pipeline in the three modes vs the model, per object. Relations checked directly on the real outputs (no "
+            "model): .ui bytes identical across modes; accepted(reject) <=> accepted(generate) and setup() empty; errors(omit) sub-multiset of errors(generate), "
+            "errors(reject); header presence -- on generated documents, the repository's example/test documents and their mutants.",
+    "technique": "Coq proof over a mode-parametric model of the passes + three-mode differential check against the model + cross-mode relational oracle on real outputs",
+    "design_ref": "5 C14",
+    "note": "Trusted: harness uigen for the three DynamicBindingHandling values; the CLI flag parsing (--no-dynamic-binding, preview) is not part of this check (C15 runs "
+            "the command).",
+}
+
+CHECKS["C08"] = {
+    "text": "Proofs (closed under the global context) over model/Uigen.v, where every binding map is a list in an ARBITRARY order (the hash order): for any two orders "
+            "of the properties, callbacks and attached bindings of an object with distinct names, the form, the consumed attached bindings, the header bindings and "
+            "callbacks are EQUAL and the diagnostics are a permutation of each other (C08_order_irrelevant, lifted to documents by C08_doc_order_irrelevant); the key "
+            "lemma -- a list sorted by distinct keys is determined by its elements (C08_sorted_output_unique, via commuting insertions); nothing survives from one "
+            "document to the next (C08_history_free). Tie: the model vs the real outputs on the wide documents. On the implementation itself: every document is "
+            "translated R times (R=10 quick, 30 thorough), each round in a different order and spread over fresh processes; .ui bytes, header bytes and the multiset "
+            "of diagnostics (message, kind, range, labels) must coincide -- wide generated documents (up to 9 properties, 5 group members, 3 handlers per object), "
+            "documents with many errors, the repository's example/test documents (palettes, string lists) and mutants, in the three modes.",
+    "technique": "Coq proof of order-irrelevance for all permutations of the modelled maps + model/implementation differential check + repeated-run byte comparison across processes",
+    "design_ref": "5 C08",
+    "note": "The real hasher is sampled, not enumerated: the theorem covers all orders of the MODELLED maps; a forgotten sort in code outside the model (palette roles, "
+            "gadget attributes, includes) is caught only by the repeated runs. The CLI's write-only-if-changed is C15's subject.",
+}
+
 NOT_YET = {
 }
